@@ -17,7 +17,7 @@ RULE = ("cases = (C04 architecture incl. max-pooling, optionally wrapped to take
         "references = explicit tensor, or dinucleotide_shuffle / shuffle with an integer random_state; n_shuffles 1-6; output mode "
         "processed / raw / hypothetical; a list of batch sizes from 1..n*ns+1; a subset and a permutation of the example list) drawn "
         "by Hypothesis. Oracle (metamorphic): against the call that puts everything in one batch, every other batch size, the "
-        "subset call and the permuted call must give the same attributions per example (allclose rtol 1e-9 / atol 1e-12 - last-bit "
+        "subset call, the permuted call and the call without return_references must give the same attributions per example (allclose rtol 1e-9 / atol 1e-12 - last-bit "
         "differences between batchings are legitimate) and exactly the same references; a repeated identical call must be "
         "bit-identical. Non-trivial: n >= 2 and some batch boundary falls strictly inside an example's block of references.")
 ASSUMPTIONS = ["references=function is only used with an integer random_state (with None the shuffles are not reproducible by design)",
@@ -144,6 +144,11 @@ def invariance_case(case, ctx):
         ctx.label("override_call_in_between")
     A1, R1 = sut(call, allidx, n * ns + 1)
     require(torch.equal(A1, A0) and torch.equal(R1, R0), "repeated-call-not-identical", desc)
+    # return_references only adds the references to the result: the attributions are those of the same call without it
+    with warnings.catch_warnings():
+        warnings.simplefilter("ignore")
+        A2 = sut(deep_lift_shap, model, X, args=args, batch_size=n * ns + 1, **{k_: v_ for k_, v_ in base.items() if k_ != "return_references"}, **refkw(allidx))
+    require(torch.is_tensor(A2) and tuple(A2.shape) == tuple(A0.shape) and torch.equal(A2, A0), "return_references-changes-attributions", desc)
     inside = False
     for b in case["batch_sizes"]:
         b = max(1, min(b, n * ns + 1))
